@@ -21,6 +21,8 @@ WORK = os.path.join(VERIF, "work")
 TFM = os.path.join(LEAN, ".lake", "build", "bin", "tfm")
 TFH = os.path.join(HARNESS, "target", "release", "tfh")
 ALLOWED_AXIOMS = {"propext", "Classical.choice", "Quot.sound"}
+ALT_ENV = {"RAYON_NUM_THREADS": "3"}
+ALT_TAG = "RAYON_NUM_THREADS=3"
 FORBIDDEN = re.compile(r"\b(sorry|admit|native_decide|bv_decide|implemented_by|unsafe)\b|^axiom\s|maxHeartbeats 0")
 
 sys.path.insert(0, os.path.join(VERIF, "tools"))
@@ -306,6 +308,7 @@ def run_check(prop, tier, seed):
     model_skips = 0
     disagreements = []
     oracle_fails = []
+    alt_failures = []    # failures seen only under the alternative environment (other thread-pool size)
     stats = {}
     samples = []
     distinct = set()
@@ -347,11 +350,26 @@ def run_check(prop, tier, seed):
         with open(ops_path, "w") as f:
             f.write("\n".join(lines) + "\n")
         stats_path = os.path.join(WORK, f"{prop}.{tier}.stats.json")
-        with open(ops_path) as fin:
-            rci, iout, ierr = sh([TFH, "run", "--stats", stats_path], stdin=fin, env=env, timeout=7200)
-        with open(ops_path) as fin:
-            rcm, mout, merr = sh([TFM], stdin=fin, timeout=7200)
+        # three runs side by side: the implementation, the implementation again under a second thread-pool size
+        # (RAYON_NUM_THREADS=3: not a power of two, not a divisor of the usual sizes), and the Lean model
+        def _run_impl():
+            with open(ops_path) as fin:
+                return sh([TFH, "run", "--stats", stats_path], stdin=fin, env=env, timeout=7200)
+
+        def _run_impl_t3():
+            with open(ops_path) as fin:
+                return sh([TFH, "run"], stdin=fin, env=dict(env, **ALT_ENV), timeout=7200)
+
+        def _run_model():
+            with open(ops_path) as fin:
+                return sh([TFM], stdin=fin, timeout=7200)
+        with ThreadPoolExecutor(max_workers=3) as ex3:
+            f1, f2, f3 = ex3.submit(_run_impl), ex3.submit(_run_impl_t3), ex3.submit(_run_model)
+            rci, iout, ierr = f1.result()
+            rci2, iout2, ierr2 = f2.result()
+            rcm, mout, merr = f3.result()
         impl = iout.split("\n")
+        impl2 = iout2.split("\n")
         model = mout.split("\n")
         if rci != 0 or rcm != 0 or len(impl) < len(lines) or len(model) < len(lines):
             # a crash (abort, stack overflow, ...) of either side: find the line by bisection-free replay
@@ -393,6 +411,21 @@ def run_check(prop, tier, seed):
                 continue
             if ir != mr:
                 disagreements.append((op, ir, mr))
+        # second pass (other thread-pool size): every line that differs from the first pass is classified on its own
+        alt_evals = 0
+        if rci2 != 0 or len(impl2) < len(lines):
+            k2 = len([x for x in impl2 if x])
+            if rci == 0 and k2 < len(lines):
+                alt_failures.append((lines[k2], "<crash:implementation under " + ALT_TAG + ">", model[k2] if k2 < len(model) else "", None))
+        for i, op in enumerate(lines[:len(impl2)]):
+            if i >= len(impl) or impl2[i] == impl[i]:
+                continue
+            alt_evals += 1
+            ir2, orc2 = impl2[i], None
+            if "\tORACLE-FAIL:" in ir2:
+                ir2, orc2 = ir2.split("\tORACLE-FAIL:", 1)
+            alt_failures.append((op, ir2, model[i] if i < len(model) else "", orc2 or ("result depends on the thread-pool size: " + impl[i][:80] + " vs " + ir2[:80])))
+        notes.append(f"implementation stream also run under {ALT_TAG}: {len(impl2)} lines, {alt_evals} differing from the first pass")
 
     # ---- 6. classify
     known = [k for k in load_known() if k["property"] == prop and k.get("status") == "known"]
@@ -419,6 +452,10 @@ def run_check(prop, tier, seed):
             reported_known.setdefault(k["id"], (k, op))
             continue
         viol_inputs.append({"kind": "oracle", "op": op, "impl": ir, "model": mr, "oracle": orc})
+    for (op, ir2, mr, orc2) in alt_failures:
+        if any(v["op"] == op for v in viol_inputs):
+            continue
+        viol_inputs.append({"kind": "oracle-under-" + ALT_TAG, "op": op, "impl": ir2, "model": mr, "oracle": orc2, "env": ALT_ENV})
     for (op, ir, mr) in disagreements:
         if any(v["op"] == op for v in viol_inputs):
             continue
@@ -438,6 +475,7 @@ def run_check(prop, tier, seed):
         v = viol_inputs[0]
         payload = {"property": prop, "kind": v["kind"], "seed": seed, "tier": tier, "op_lines": [v["op"]],
                    "implementation_output": v["impl"], "model_output": v["model"], "oracle": v["oracle"],
+                   "env": v.get("env", {}),
                    "all_failing_ops": [x["op"] for x in viol_inputs[:50]],
                    "broken_obligations": broken, "untranslatable": failed_translations,
                    "how_to_replay": f"cd /verif && ./check replay {{this file}}"}
@@ -528,7 +566,7 @@ def replay(path):
     lake_build(["tfm"])
     cargo_build()
     text = "\n".join(ops) + "\n"
-    p1 = subprocess.run([TFH, "run"], input=text, stdout=subprocess.PIPE, text=True)
+    p1 = subprocess.run([TFH, "run"], input=text, stdout=subprocess.PIPE, text=True, env=dict(os.environ, **payload.get("env", {})))
     p2 = subprocess.run([TFM], input=text, stdout=subprocess.PIPE, text=True)
     bad = 0
     for op, a, b in zip(ops, p1.stdout.split("\n"), p2.stdout.split("\n")):
